@@ -76,6 +76,8 @@ def parse_how(data, how):
         for b in data:
             p.feed_byte(_BYTE_ENUM(b))
         return list(p)
+    if how == 'fork':
+        return parse_fork(data[:len(data) // 2], data[len(data) // 2:])
     if how == 'split':
         return parse_split([data[:len(data) // 2], data[len(data) // 2:]])
     if how == 'bytewise-late':
@@ -86,7 +88,25 @@ def parse_how(data, how):
     return mido.parse_all(list(data))
 
 
-HOWS = ('list', 'bytes', 'generator', 'iter', 'bytewise', 'bytewise-late', 'intsub', 'enum', 'split')
+HOWS = ('list', 'bytes', 'generator', 'iter', 'bytewise', 'bytewise-late', 'intsub', 'enum', 'split', 'fork')
+
+
+def parse_fork(first, second):
+    """A parser is a plain Python object: a deep copy taken in the middle of a stream is a second, independent parser
+    in the same state (if the object cannot be copied at all, nothing is claimed)."""
+    import copy
+    p = mido.Parser()
+    p.feed(list(first))
+    out = list(p)
+    try:
+        q = copy.deepcopy(p)
+    except Exception:  # noqa: BLE001
+        q = p
+    if q is not p:
+        p.feed([0xB5, 0x07])           # the original goes its own way
+    q.feed(list(second))
+    out.extend(q)
+    return out
 
 
 def parse_split(parts):
@@ -100,7 +120,9 @@ def parse_split(parts):
 def check_prefix(prefix, d, how='list'):
     try:
         base = mido.parse_all(list(prefix))
-        if how == 'split':
+        if how == 'fork':
+            got = parse_fork(list(prefix), R.ref_encode(d))
+        elif how == 'split':
             got = parse_split([list(prefix), R.ref_encode(d)])
         else:
             got = parse_how(list(prefix) + R.ref_encode(d), how)
@@ -213,7 +235,10 @@ def check_grammar(segs, how='list'):
         return []
     data, want_d, bounds = built
     try:
-        if how == 'split':
+        if how == 'fork':
+            cut = bounds[len(bounds) // 2 - 1] if len(bounds) > 1 else 0
+            got = parse_fork(data[:cut], data[cut:])
+        elif how == 'split':
             got = parse_split([data[a:b] for a, b in zip([0] + bounds[:-1], bounds)])
         else:
             got = parse_how(data, how)
@@ -227,6 +252,14 @@ def check_grammar(segs, how='list'):
 
 
 def run_case(case):
+    import mido.parser
+    import mido.tokenizer
+    from lib.doubles import jumping_clock
+    with jumping_clock(mido.tokenizer, mido.parser):          # what a stream means does not depend on when it arrives
+        return _run_case(case)
+
+
+def _run_case(case):
     k = case['kind']
     how = case.get('how', 'list')
     if k == 'grammar':
@@ -352,6 +385,7 @@ def block_shard(rec, shard):
                                 dd['channel'] = ch
                             rec.check({'kind': 'prefix', 'prefix': enc[:k], 'msg': dd}, sample=False)
                             rec.check({'kind': 'prefix', 'prefix': enc[:k], 'msg': dd, 'how': 'split'}, sample=False)
+                            rec.check({'kind': 'prefix', 'prefix': enc[:k], 'msg': dd, 'how': 'fork'}, sample=False)
     elif block == 'hows':
         # every way of handing the bytes over, for every type as the final message behind a few prefixes
         for t in R.ALL_TYPES:
